@@ -67,7 +67,8 @@ def generate(seed: int, tier: str = "quick") -> dict:
         descs["N0"] = space.new_for(rng, d, "disjoint")
         fit = {"X": "D0", "w": None}
         if rng.random() < 0.25:
-            descs["W0"] = {"kind": "weights", "of": "D0", "seed": rng.randrange(10 ** 6)}
+            descs["W0"] = {"kind": "weights", "of": "D0", "seed": rng.randrange(10 ** 6),
+                           "dim_order": rng.choice([None, None, "rev"])}
             fit["w"] = "W0"
         new = ["N0"]
         params = models.draw_single_params(rng, spec, d, lazy=True if deferred else False)
@@ -84,6 +85,13 @@ def generate(seed: int, tier: str = "quick") -> dict:
         descs["NX0"] = space.new_for(seeds.stream(k, "n"), dx, "disjoint")
         descs["NY0"] = space.new_for(seeds.stream(k, "n"), dy, "disjoint")
         fit = {"X": "X0", "Y": "Y0"}
+        if rng.random() < 0.2:
+            descs["WX0"] = {"kind": "weights", "of": "X0", "seed": rng.randrange(10 ** 6),
+                            "dim_order": rng.choice([None, None, "rev"])}
+            fit["w"] = "WX0"
+            if rng.random() < 0.5:
+                descs["WY0"] = {"kind": "weights", "of": "Y0", "seed": rng.randrange(10 ** 6)}
+                fit["wY"] = "WY0"
         new = [["NX0", "NY0"]]
         params = models.draw_cross_params(rng, spec, dx, dy, lazy=True if deferred else False)
         # fractional n_pca_modes needs the spectrum: not available lazily (documented ValueError)
@@ -101,6 +109,12 @@ def generate(seed: int, tier: str = "quick") -> dict:
                 descs[k[1]]["nan_features"] = 1
                 if len(d0["sample"]) == 1 and rng.random() < 0.5 and fam == "single":
                     d0["nan_samples"] = 1
+    r1, r2 = rng.random(), rng.random()
+    nk = "N0" if fam == "single" else "NX0"
+    if params.get("check_nans") and r1 < 0.25 and gen.n_samples_total(descs[nk]) >= 3:
+        descs[nk]["nan_sample_new"] = 1          # unseen data with an entirely missing sample
+    if descs[nk].get("container") == "ds" and len(descs[nk]["fields"]) >= 2 and r2 < 0.3:
+        descs[nk]["var_order"] = "rev"           # unseen Dataset with its variables in another order
     # dask's exact SVD (Whitener with alpha < 1, SparsePCA's full solver) refuses arrays chunked along both
     # dimensions; that counts as refused, not as a result, so such layouts are only drawn occasionally
     alphas = params.get("alpha", spec.fixed_alpha)
@@ -145,8 +159,9 @@ def generate(seed: int, tier: str = "quick") -> dict:
         c = copy.deepcopy(descs[k])
         c["chunks"] = chunks
         descs["c:" + k] = c
-    if "W0" in descs:
-        descs["c:W0"] = dict(descs["W0"], of="c:D0", chunked=rng.random() < 0.5)
+    for wk, of in (("W0", "c:D0"), ("WX0", "c:X0"), ("WY0", "c:Y0")):
+        if wk in descs:
+            descs["c:" + wk] = dict(descs[wk], of=of, chunked=rng.random() < 0.5)
     # unseen data may arrive with another chunking than the training data
     if rng.random() < 0.4:
         other = space.draw_chunks(rng, tiny=tiny)
@@ -328,7 +343,13 @@ def execute(cfg: dict, *, stop_at_first=True, trace=False) -> RunResult:
     # ---- reference: the same class, same parameters, the same data held in memory -----------------
     with core.simulated_ambient(clock):
         with core.reference_context():
-            ref = spec.cls()(**copy.deepcopy(params))
+            # the reference is the *eager* in-memory fit ("a later compute() yields the eager results"): a
+            # deferred in-memory fit followed by compute() would share the deferred route's bookkeeping
+            # (compute() rebuilds the model from its serialised form) and hide what that route loses
+            # (iterative solvers - SparsePCA, the rotations - run a fixed number of iterations when deferred and
+            #  until convergence when eager; their references stay in the drawn regime)
+            eager = lambda p: dict(copy.deepcopy(p), compute=True) if "compute" in p and spec.name != "SparsePCA" else copy.deepcopy(p)  # noqa: E731
+            ref = spec.cls()(**eager(params))
             rout = oracle.capture(models.fit_model, spec, ref, fit, env)
             rrot = None
             rrout = None
@@ -389,6 +410,17 @@ def execute(cfg: dict, *, stop_at_first=True, trace=False) -> RunResult:
                     if key.startswith("input_data") and isinstance(arr, xr.DataArray) and arr.chunks is None:
                         violate("L2", "input-materialised", f"{key!r} inside the model is an in-memory copy {when}", when)
                         return
+                    # ... nor a *persisted* copy: a dask array that can be evaluated without running a single
+                    # loader task of the user's input holds every block in memory although its type says "lazy"
+                    if key.startswith("input_data") and isinstance(arr, xr.DataArray) and arr.chunks is not None \
+                            and when != "after the queries":
+                        before = gen.LOADS[0]
+                        o = oracle.capture(lambda: dask.compute(arr.data, scheduler="synchronous"))
+                        counts["input_graph_checks"] = counts.get("input_graph_checks", 0) + 1
+                        if o.ok and gen.LOADS[0] == before:
+                            violate("L2", "input-persisted", f"{key!r} inside the model is dask-backed but evaluating it runs "
+                                    f"none of the user's loader tasks: it is a persisted in-memory copy {when}", when)
+                            return
 
             if live and strict_lazy:
                 laziness(sub, fit_calls, "fit")
@@ -453,6 +485,9 @@ def execute(cfg: dict, *, stop_at_first=True, trace=False) -> RunResult:
                 res.vlog.append(oracle.digest(got))
                 if not got.ok and got.exc_type == "SimHarnessError":
                     raise sched.SimHarnessError(got.exc_msg)
+                if q.get("q") == "params" and got.ok and want.ok and isinstance(got.value, dict) and isinstance(want.value, dict):
+                    got.value.pop("compute", None)      # (the reference is the eager fit)
+                    want.value.pop("compute", None)
                 if frag:
                     counts["relaxed"] += 1
                     probes.add("near-tie relaxation used")
@@ -523,8 +558,11 @@ def execute(cfg: dict, *, stop_at_first=True, trace=False) -> RunResult:
             if live and ok() and deferred:
                 step("compute")
                 o = oracle.capture(target_s.compute)
-                with core.reference_context():
-                    ro = oracle.capture(target_r.compute)
+                if tspec_rot or spec.name == "SparsePCA":
+                    with core.reference_context():
+                        ro = oracle.capture(target_r.compute)
+                else:
+                    ro = oracle.capture(lambda: None)      # (the eager reference has nothing to compute)
                 res.log.append(f"  compute -> {o.kind()} ref {ro.kind()}")
                 if o.kind() != ro.kind():
                     violate("E1", f"outcome:{o.kind()}!={ro.kind()}", f"compute() -> {o.kind()} {o.exc_msg[:200]!r}; reference -> {ro.kind()}", "compute")
@@ -634,8 +672,8 @@ def simplifications(cfg: dict):
         yield variant(sched=dict(sc, reexec=0.0, transient=0.0, stall=0.0))
     if sc["W"] != 1:
         yield variant(sched=dict(sc, W=1))
-    if cfg["fit"].get("w"):
-        yield variant(fit=dict(cfg["fit"], w=None))
+    if cfg["fit"].get("w") or cfg["fit"].get("wY"):
+        yield variant(fit=dict(cfg["fit"], w=None, wY=None))
     if cfg["chunks"]["mode"] != "single":
         c = copy.deepcopy(cfg)
         c["chunks"] = dict(c["chunks"], mode="single")
@@ -643,7 +681,8 @@ def simplifications(cfg: dict):
             if k.startswith("c:") and d.get("kind") != "weights":
                 d["chunks"] = c["chunks"]
         yield c
-    for key in ("attrs", "coord_attrs", "ds_attrs", "extra_coord", "perm_seed", "multiindex"):
+    for key in ("attrs", "coord_attrs", "ds_attrs", "extra_coord", "perm_seed", "multiindex", "nan_sample_new",
+                "var_order", "dim_order"):
         if any(key in d for d in cfg["descs"].values()):
             c = copy.deepcopy(cfg)
             for d in c["descs"].values():
